@@ -18,7 +18,7 @@ RULE = ("cases = generated 3D plotfiles with affine / tagged / random fields x n
 ASSUMPTIONS = ["per box, pixels where the level holds only one of the two bracketing samples are "
                "not judged for the exact value (statement does not single out a value)",
                "pool shim M1"]
-REQUIRED_OBS = {"plotfiles_written": 100, "boxes_checked": 300, "pixels_decided": 5000,
+REQUIRED_OBS = {"plotfiles_written": 100, "reused_instance_slices": 30, "boxes_checked": 300, "pixels_decided": 5000,
                 "splitting_cases": 1, "multi_level": 20, "cli_runs": 10}
 CHAIN = {"quick": 2, "thorough": 20}
 TIMEOUT = {"quick": 600, "thorough": 3000}
@@ -241,6 +241,8 @@ def run_case(case, work, rec):
     if case["kind"] == "geom":
         cli_vs_api(case, work, rec, m, path, digest, rng)
     vols = {}
+    if case["kind"] == "geom":
+        reuse_instance(case, work, rec, m, path, digest, rng, vols)
     jobs = []
     if case["kind"] == "split":
         for n, pos in ((2, m.geo_low[2] + 0.3 * (m.geo_high[2] - m.geo_low[2])),):
@@ -310,3 +312,42 @@ def run_case(case, work, rec):
                           witness={"config": descr, "differences": probs[:4]})
         else:
             rec.ok(key, case["kind"] == "split" or (L >= 1 and not cls.startswith("centre")))
+
+
+def reuse_instance(case, work, rec, m, path, digest, rng, vols):
+    """one Mandoline instance asked for plotfile-format slices along different normals and at
+    different positions: every output is judged like a fresh instance's"""
+    from amr_kitchen.mandoline import Mandoline
+    finest = m.nlevels - 1
+    if finest not in vols:
+        vols[finest] = slicemodel.LevelVolumes(m, finest)
+    fl = ["rnd", "ax", "ay", "az"]
+    poison.set_poison(np.nan)
+    pools.CTL.reset(mode="inproc", seed=rng.randrange(10 ** 6))
+    md = Mandoline(path, fields=list(fl), serial=True, verbose=0)
+    reqs = []
+    for n in (0, 1, 2, 0, 2):
+        for _ in range(20):
+            pos = m.geo_low[n] + (m.geo_high[n] - m.geo_low[n]) * rng.random()
+            if not (on_box_face(m, finest, n, pos) or level_not_met(m, finest, n, pos)
+                    or slicemodel.too_close_to_centre(m, finest, n, pos)):
+                reqs.append((n, pos)); break
+    for j, (n, pos) in enumerate(reqs):
+        out = os.path.join(work, f"reuse{j}")
+        key = (digest, "reuse", j, n, pos)
+        descr = f"request {j + 1} on one instance: normal={'xyz'[n]} pos={pos!r} fields={fl}"
+        try:
+            md.slice(normal=n, pos=pos, outfile=out, fformat="plotfile")
+        except Exception as e:
+            rec.violation(f"plotfile-format slice raised {type(e).__name__}: {descr}", key=key, witness={"exc": repr(e)[:300]})
+            return
+        rec.count("reused_instance_slices")
+        probs, nb, nd, nu = judge(out, m, vols[finest], n, pos, finest, fl)
+        if not probs and not taste_ok(out):
+            probs.append("validation (with box coordinates) rejects the slice plotfile")
+        if probs:
+            rec.violation(f"slice plotfile is not the plane data ({probs[0][:150]}): {descr}", key=key,
+                          witness={"config": descr, "differences": probs[:4]})
+        else:
+            rec.ok(key, j >= 1)
+        shutil.rmtree(out, ignore_errors=True)
